@@ -52,26 +52,30 @@ def check(ctx, rep):
         rep.missing('R13.a', 'QueuingExecutor::run_task')
     else:
         polls = [(bb, t) for bb, t in f.calls('core::future::future::Future::poll')]
-        pend = [(bb, t) for bb, t in f.calls('core::task::poll::Poll::is_pending', 'core::task::poll::Poll::is_ready')]
-        removes = [bb for bb, t in f.calls('slab::Slab::remove', 'slab::Slab::try_remove')]
-        replaces = [bb for bb, t in f.calls('core::option::Option::replace', 'core::option::Option::insert', 'core::option::Option::get_or_insert')]
+        from rules.common import Summaries
+        sm13 = Summaries([core])
+        removes = sm13.sites(f, ['slab::Slab::remove', 'slab::Slab::try_remove'], 'must')
+        replaces = sm13.sites(f, ['core::option::Option::replace', 'core::option::Option::insert', 'core::option::Option::get_or_insert'], 'must')
         rets = f.return_blocks()
         ok1 = ok2 = False
-        if len(polls) == 1 and len(pend) == 1:
-            fe, te = c06.bool_edges(f, *pend[0])
-            if last_seg(pend[0][1]['callee']) == 'is_ready':
-                fe, te = te, fe
-            # te = pending edge, fe = ready edge
-            if fe and te:
-                ok1 = bool(removes) and all(r not in f.reachable([fe[1]], removed_blocks=removes) for r in rets) and \
-                    not any(r in f.reachable([te[1]]) for r in removes)
-                ok2 = bool(replaces) and all(r not in f.reachable([te[1]], removed_blocks=replaces) for r in rets)
-                # the removed index is the task id parameter
-                for rb in removes:
-                    t = f.blocks[rb]['t']
-                    src = origins(f, t['args'][1], through_casts=True, extra_identity=[('core::ops::deref::Deref::deref', 0)])
-                    if not (src and all(o.kind == 'arg' and o.n == 2 for o in src)):
-                        ok1 = False
+        if len(polls) == 1:
+            # finite-domain evaluation over the poll result (whatever tests it: is_pending(), is_ready(), a match)
+            pb = polls[0][0]
+            POLL_T = 'core::task::poll::Poll'
+            ready = f.reachable_ps([pb], removed_blocks=removes, call_values=lambda b_, t_: ('V', POLL_T, 0) if b_ == pb else None)
+            ready_all = f.reachable_ps([pb], call_values=lambda b_, t_: ('V', POLL_T, 0) if b_ == pb else None)
+            pending = f.reachable_ps([pb], removed_blocks=replaces, call_values=lambda b_, t_: ('V', POLL_T, 1) if b_ == pb else None)
+            pending_all = f.reachable_ps([pb], call_values=lambda b_, t_: ('V', POLL_T, 1) if b_ == pb else None)
+            ok1 = bool(removes) and not (set(rets) & ready) and bool(set(rets) & ready_all) and not (set(removes) & pending_all)
+            ok2 = bool(replaces) and not (set(rets) & pending) and bool(set(rets) & pending_all)
+            # the removed index is the task id parameter
+            for rb in removes:
+                t = f.blocks[rb]['t']
+                if not call_matches(t, ['slab::Slab::remove', 'slab::Slab::try_remove']):
+                    continue
+                src = origins(f, t['args'][1], through_casts=True, extra_identity=[('core::ops::deref::Deref::deref', 0)])
+                if not (src and all(o.kind == 'arg' and o.n == 2 for o in src)):
+                    ok1 = False
         rep.expect('R13.a', ok1, 'executor|ready-frees-slot', 'every path from the Ready edge to the return removes the slot of this task id',
                    'QueuingExecutor::run_task can return after a task finished without freeing its slab slot (or frees another id)')
         rep.expect('R13.a', ok2, 'executor|pending-puts-back', 'every path from the Pending edge puts the future back into its slot',
